@@ -964,11 +964,16 @@ mod builtins {
             } else {
                 // Fast path for a more common case of single key
                 let key = if !keys.is_empty() { keys[0] } else { attr };
+                // an item without the attribute sorts as undefined (like it does with
+                // several keys): treating a failed lookup as equal to everything is not
+                // an order.
                 safe_sort(&mut items, |a, b| {
-                    match (a.get_path(key), b.get_path(key)) {
-                        (Ok(a), Ok(b)) => cmp_helper(&a, &b, case_sensitive, reverse),
-                        _ => Ordering::Equal,
-                    }
+                    cmp_helper(
+                        &a.get_path_or_default(key, &Value::UNDEFINED),
+                        &b.get_path_or_default(key, &Value::UNDEFINED),
+                        case_sensitive,
+                        reverse,
+                    )
                 })?;
             }
         } else {
